@@ -58,7 +58,7 @@ func init() {
 			return cs
 		},
 		func(e *vh.Env, c c16Case, o *vh.Out) {
-			o.Need("responses_checked", "generated_ids", "echoed_ids", "path_proxied", "path_429", "path_breaker", "path_nobackend", "path_413", "path_401")
+			o.Need("responses_checked", "generated_ids", "echoed_ids", "path_proxied", "path_429", "path_breaker", "path_nobackend", "path_413", "path_resp413", "path_401")
 			bes := newBackends(2)
 			defer closeBackends(bes)
 			cfg := baseConfig(c.Strategy, bes)
@@ -71,7 +71,7 @@ func init() {
 			cfg.RateLimit = config.RateLimitConfig{Enabled: true, MaxTokens: 40, RefillRate: 3600}
 			cfg.CircuitBreaker = config.CircuitBreakerConfig{Enabled: true, FailureThreshold: 1, SuccessThreshold: 1, IntervalSeconds: 10, TimeoutSeconds: 5}
 			cfg.Plugins = config.PluginsConfig{Enabled: true, Chain: []config.PluginConfig{
-				{Name: "size_limit", Config: map[string]interface{}{"max_request_body": 100, "max_response_body": 1 << 20}},
+				{Name: "size_limit", Config: map[string]interface{}{"max_request_body": 100, "max_response_body": 2000}},
 				{Name: "custom-auth", Config: map[string]interface{}{"apiKey": "k"}},
 			}}
 			sys, err := startSys(cfg, bes, true)
@@ -108,6 +108,9 @@ func init() {
 					rq.Headers = append(rq.Headers, [2]string{vh.ScriptHeader, vh.Script{Status: 500}.Encode()})
 				case "p413":
 					rq.BodyLen = 500
+				case "r413":
+					// the response is larger than max_response_body and its first write already exceeds the limit
+					rq.Headers = append(rq.Headers, [2]string{vh.ScriptHeader, vh.Script{Status: 200, Framing: "cl", Steps: []vh.Step{{Op: "write", N: 9000}}}.Encode()})
 				case "p401":
 					key = false
 				case "p429":
@@ -132,13 +135,13 @@ func init() {
 				if bes[0].Count()+bes[1].Count() == before {
 					arr = nil
 				}
-				want := map[string]int{"proxied": 200, "proxied500": 500, "p413": 413, "p401": 401, "p429": 429, "breaker": 503, "nobackend": 503}[path]
+				want := map[string]int{"proxied": 200, "proxied500": 500, "p413": 413, "r413": 413, "p401": 401, "p429": 429, "breaker": 503, "nobackend": 503}[path]
 				ctx := fmt.Sprintf("[%s] path=%s %s=%s %s=%s", cname, path, reqH, c16Values[vi].label, traceH, c16Values[vj].label)
 				if rs.Status != want {
 					o.Inconcl("%s: expected status %d on this path, got %d %q", ctx, want, rs.Status, rs.Err)
 					return true
 				}
-				o.Obs("path_"+map[string]string{"proxied": "proxied", "proxied500": "proxied", "p413": "413", "p401": "401", "p429": "429", "breaker": "breaker", "nobackend": "nobackend"}[path], 1)
+				o.Obs("path_"+map[string]string{"proxied": "proxied", "proxied500": "proxied", "p413": "413", "r413": "resp413", "p401": "401", "p429": "429", "breaker": "breaker", "nobackend": "nobackend"}[path], 1)
 				for k, f := range feats {
 					v := c16Values[vals[k]]
 					sup := strings.TrimSpace(v.v) // HTTP itself trims optional whitespace around a field value
@@ -211,6 +214,15 @@ func init() {
 				if !send("p413", i, (i+1)%nv) || !send("p401", (i+2)%nv, i) {
 					return
 				}
+				// a response cut by size_limit aborts the proxied exchange, which the breaker (threshold 1) counts:
+				// wait out its timeout and let one good request close it again
+				if !send("r413", (i+4)%nv, (i+6)%nv) {
+					return
+				}
+				time.Sleep(6 * time.Second)
+				if !send("proxied", i, i) {
+					return
+				}
 			}
 			// limiter: exhaust one client, then 429
 			for i := 0; i < 40; i++ {
@@ -245,6 +257,44 @@ func init() {
 			if c.Idx == 0 {
 				o.Sample(map[string]any{"part": "paths", "case": c, "values": "absent, plain, empty, spaces, padded, 1 KB, punctuation, inner space, unicode, tab", "paths": "proxied 200/500, size_limit 413, custom-auth 401, limiter 429, no-backend 503, breaker 503"})
 			}
+		})
+
+	// ---- uniqueness at one instant: under the virtual clock no time passes, so any scheme that relies on the
+	// clock plus a bounded counter runs out within this burst
+	type c16Burst struct {
+		N int `json:"n"`
+	}
+	vh.AddPart("C16", "unique-burst", "sim", vh.Opts{TimeoutS: 300},
+		func(e *vh.Env) []c16Burst { return []c16Burst{{e.Pick(150000, 1200000)}} },
+		func(e *vh.Env, c c16Burst, o *vh.Out) {
+			o.Need("burst_ids")
+			cfg := baseConfig("round_robin", nil)
+			cfg.Backends = []config.BackendConfig{{Name: "b0", Address: "http://127.0.0.1:9"}}
+			cfg.Logging.RequestID.Enabled, cfg.Logging.Trace.Enabled = true, true
+			cfg.Plugins = config.PluginsConfig{Enabled: true, Chain: []config.PluginConfig{{Name: "custom-auth", Config: map[string]interface{}{"apiKey": "k"}}}}
+			sys, err := startSys(cfg, nil, false)
+			if err != nil {
+				o.Inconcl("startSys: %v", err)
+				return
+			}
+			defer sys.Close()
+			seen := make(map[string]struct{}, 2*c.N)
+			req := httptest.NewRequest("GET", "/u", nil)
+			for i := 0; i < c.N; i++ {
+				w := httptest.NewRecorder()
+				sys.Handler.ServeHTTP(w, req.Clone(req.Context()))
+				for _, id := range []string{"r:" + w.Header().Get("X-Request-ID"), "t:" + w.Header().Get("X-Trace-ID")} {
+					if _, dup := seen[id]; dup || len(id) <= 2 {
+						o.Viol("C16|unique|duplicate-in-burst", fmt.Sprintf("identifier %q was handed out twice within a burst of %d requests at one instant (request %d)", id, c.N, i), nil)
+						return
+					}
+					seen[id] = struct{}{}
+				}
+			}
+			o.Eval(1)
+			o.Obs("burst_ids", int64(len(seen)))
+			o.Distinct(vh.J(c))
+			o.Sample(map[string]any{"part": "unique-burst", "requests": c.N, "distinct_ids": len(seen)})
 		})
 
 	// ---- uniqueness of generated identifiers under concurrency
